@@ -44,17 +44,6 @@ LinCode == 71
 \* a node is a tuple <<tag, ...>> whose later components are levels or ids of earlier nodes
 Find(t, node) == IF \E i \in 1..Len(t) : t[i] = node THEN CHOOSE i \in 1..Len(t) : t[i] = node ELSE 0
 Mk(t, node) == LET i == Find(t, node) IN IF i # 0 THEN [t |-> t, id |-> i] ELSE [t |-> Append(t, node), id |-> Len(t) + 1]
-\* a node is BAD if it is, or depends on, stale / clobbered / unallocated data or an unknown instruction
-RECURSIVE BadId(_, _)
-BadId(t, i) ==
-  LET n == t[i]
-  IN IF n[1] \in {"Stale", "Clob", "Unalloc", "Unknown"} THEN TRUE
-     ELSE IF n[1] \in {"Zero", "U0", "F", "Raw"} THEN FALSE
-     ELSE IF n[1] \in {"S", "SX", "Res"} THEN BadId(t, n[3]) \/ BadId(t, n[4])
-     ELSE IF n[1] \in {"R", "RX", "Inj", "P", "PX", "FI", "D", "Disc"} THEN BadId(t, n[3])
-     ELSE IF n[1] \in {"Add", "Lin", "XR"} THEN BadId(t, n[2]) \/ BadId(t, n[3])
-     ELSE TRUE
-
 \* relabel: every vector becomes a fresh leaf; keep(id) gives the leaf of the vectors that carry data
 RECURSIVE Relabel(_, _, _)
 Relabel(i, keep, acc) ==      \* acc = [t, v]
@@ -184,7 +173,7 @@ TResNorm == /\ IsEvent("ResNorm") /\ Step
                            r1 == Mk(j.t, <<"Res", 1, v[Vid(1, 1)], j.id>>)
                            x == Mk(r1.t, <<"XR", r0.id, r1.id>>)
                        IN v[Vid(0, 2)] = x.id /\ x.t = tab
-            /\ RhsIntact /\ ~BadId(tab, v[Vid(0, 0)])
+            /\ RhsIntact
             /\ UNCHANGED <<tab, v, st, fm, start>>
 \* a cycle starts: relabel (scratch = stale), remember what it started from
 TCycleRun == /\ IsEvent("CycleRun") /\ Step /\ KindName(Tr[l].kind) = st.kind /\ (Tr[l].ext # 0) = st.ext
